@@ -747,6 +747,21 @@ def gen_C12(rng, tier):
             cases += ["sections " + gen.src_tok(d, ch), build_case(d, qs, ch)]
             kinds_v.append(kind)
         groups.append(group("variants", "c12_variants", cases, params={"kinds": kinds_v}))
+        if rng.random() < 0.15:
+            # odd bytes at the very start of the stream (BOM, NUL, whitespace): every chunking must agree
+            pre = rng.choice([b"\xef\xbb\xbf", b"\xef\xbb", b"\x00", b" ", b"\xff\xfe", b"\xef\xbb\xbf\n"])
+            dd = pre + ref
+            cs, ks = [], []
+            for mode in ("one", "bytes", "two", "two", "rand"):
+                if mode == "bytes" and len(dd) > 400:
+                    continue
+                chv = None if mode == "one" else gen.composition(rng, dd, mode)
+                cs += ["sections " + gen.src_tok(dd, chv), build_case(dd, qs, chv)]
+                ks.append("chunk")
+            for k in (1, 2, 3, 4):
+                cs += ["sections " + gen.src_tok(dd, [dd[:k], dd[k:]]), build_case(dd, qs, [dd[:k], dd[k:]])]
+                ks.append("chunk")
+            groups.append(group("odd-prefix", "c12_same", cs))
         # raw reads: byte counts and texts
         lines_txt = [l for l in base_lines]
         eol = rng.choice(["\n", "\r\n"])
@@ -754,6 +769,16 @@ def gen_C12(rng, tier):
         d = gen.render_lines(lines_txt[:-1] if (lines_txt and not fin) else lines_txt, eol, fin)
         groups.append(group("raw", "c12_raw", ["raw " + gen.src_tok(d, gen.composition(rng, d, rng.choice(["one", "rand", "two"])))],
                             params={"data": d.hex()}))
+        if rng.random() < 0.25:
+            # lines with trailing / leading whitespace and interior CR: nothing but the terminator may be stripped
+            ws = [rng.choice(["1 ", "1\t", " ", "\t", "7\t1\t2\t", "3\t0\t1 ", " 5", "chain 1 a 9 + 0 9 b 9 + 0 9 1 ", "se\rq 1", "\r", "x\r\ry", "9\r "])
+                  for _ in range(rng.randint(1, 4))]
+            for e in ("\n", "\r\n"):
+                for fin in (True, False):
+                    dl = gen.render_lines(ws, e, fin)
+                    ch = gen.composition(rng, dl, rng.choice(["one", "two", "rand", "bytes"]))
+                    groups.append(group("raw-whitespace", "c12_raw", ["raw " + gen.src_tok(dl, ch)], params={"data": dl.hex()}))
+                    groups.append(group("variants-whitespace", "none", ["sections " + gen.src_tok(dl, ch), "lines " + gen.src_tok(dl, ch)]))
         if rng.random() < 0.08:
             L = rng.choice([8191, 8192, 8193, 16384, 40000])
             long_lines = [("chain 1 %s 9 + 0 9 b 9 + 0 9 1" % ("n" * L)), "9", "", "x" * L]
@@ -787,6 +812,14 @@ def o_c12(params, cases, outs):
             return "the chunking of the underlying reader changed the result: %s vs %s" % (c[0][:120], ch[0][0][:120])
     if ch and (ch[0][0] != ref_s or ch[0][1] != ref_b):
         return "chunked reading differs from the reference parse: %s vs %s" % (ch[0][0][:160], ref_s[:160])
+    return None
+
+
+@oracle("c12_same")
+def o_c12_same(params, cases, outs):
+    for i in range(2, len(outs), 2):
+        if outs[i] != outs[0] or outs[i + 1] != outs[1]:
+            return "the chunking of the underlying reader changed the result: %s vs %s" % (outs[i][:120], outs[0][:120])
     return None
 
 
